@@ -39,6 +39,10 @@ CONSTANTS NApps,      \* applications of the operator object (1 = C24)
           Ties,       \* subset of {"src", "cmd"}
           ReUnsub,    \* TRUE: a subscriber may be unsubscribed more than once
           StaleDisc,  \* TRUE: the handle of the previous connection may be disposed again
+          Modes,      \* subscriber modes: "all" (plain recorder), "once" (subscribes through take(1): it unsubscribes
+                      \* itself from inside the delivery of its first element) - shared-subject variants without a
+                      \* replay window only (with the subject on the virtual clock the reaction is a later same-instant
+                      \* hop, whose order relative to further source events of that instant the statement leaves open)
           MinLen      \* a history ends after at least this many commands (0 when exhaustive; > 0 steers -simulate,
                       \* which picks between Do and Finish with equal odds, towards long histories)
 
@@ -97,7 +101,8 @@ S0 == [now |-> 0, nextId |-> 1, asked |-> {},
        cper |-> [a \in Apps |-> <<>>],       \* connected periods [s, e]          (history variable)
        sapp |-> [k \in SubIds |-> 0], live |-> [k \in SubIds |-> FALSE], out |-> [k \in SubIds |-> <<>>],
        from |-> [k \in SubIds |-> 0], till |-> [k \in SubIds |-> NEVER],
-       subAt |-> [k \in SubIds |-> 0], unsubAt |-> [k \in SubIds |-> NEVER], psub |-> [k \in SubIds |-> 0]]
+       subAt |-> [k \in SubIds |-> 0], unsubAt |-> [k \in SubIds |-> NEVER], psub |-> [k \in SubIds |-> 0],
+       mode |-> [k \in SubIds |-> "all"]]
 
 (* ---- ConnectableObservable ------------------------------------------------------------------ *)
 \* connect(): not connected => open ONE source subscription into the subject; else the existing connection
@@ -126,7 +131,9 @@ SubjSub(Z, a, k, t) ==
       pre == CASE kind.sk = "plain"    -> <<>>
                [] kind.sk = "behavior" -> IF st = "no" THEN <<Stamp(t, "N", Z.cur[a])>> ELSE <<>>
                [] OTHER                -> [j \in 1..Len(q2) |-> Stamp(t, "N", q2[j].v)]
-  IN IF st = "no"
+  IN IF Z.mode[k] = "once" /\ pre # <<>>      \* take(1) is satisfied by the current / first replayed value
+     THEN [Z0 EXCEPT !.out[k] = <<pre[1], Stamp(t, "C", 0)>>, !.till[k] = Len(Z.slog[a]), !.queue[a] = q2]
+     ELSE IF st = "no"
      THEN [Z0 EXCEPT !.out[k] = pre, !.live[k] = TRUE, !.members[a] = @ \cup {k}, !.queue[a] = q2]
      ELSE [Z0 EXCEPT !.out[k] = Append(pre, Stamp(t, st, 0)), !.till[k] = Len(Z.slog[a]), !.queue[a] = q2]
 
@@ -134,9 +141,15 @@ SubjSub(Z, a, k, t) ==
 FeedShared(Z, a, e, t) ==
   IF e.k = "N" THEN
      IF Z.stopped[a] # "no" THEN Z
-     ELSE [Z EXCEPT !.slog[a] = Append(@, Stamp(t, "N", e.v)), !.cur[a] = e.v,
+     ELSE LET gone == {k \in Z.members[a] : Z.mode[k] = "once"}     \* they unsubscribe from inside this delivery
+              Z1 == [Z EXCEPT !.slog[a] = Append(@, Stamp(t, "N", e.v)), !.cur[a] = e.v,
                     !.queue[a] = IF kind.sk = "replay" THEN Trim(Append(@, [t |-> t, v |-> e.v]), kind.b, kind.w, t) ELSE @,
-                    !.out = [k \in SubIds |-> IF k \in Z.members[a] THEN Append(Z.out[k], Stamp(t, "N", e.v)) ELSE Z.out[k]]]
+                    !.out = [k \in SubIds |-> IF k \in gone THEN Z.out[k] \o <<Stamp(t, "N", e.v), Stamp(t, "C", 0)>>
+                                              ELSE IF k \in Z.members[a] THEN Append(Z.out[k], Stamp(t, "N", e.v)) ELSE Z.out[k]],
+                    !.members[a] = @ \ gone,
+                    !.live = [k \in SubIds |-> IF k \in gone THEN FALSE ELSE Z.live[k]],
+                    !.till = [k \in SubIds |-> IF k \in gone THEN Len(Z.slog[a]) + 1 ELSE Z.till[k]]]
+          IN Leave(Z1, a, Cardinality(gone), t)
   ELSE \* the source terminated: its subscription is released; the subject stops (once); its observers leave
      LET Z1 == CloseConn(Z, a, t) IN
      IF Z1.stopped[a] # "no" THEN Z1
@@ -162,8 +175,8 @@ PrivTerm(Z, a, k, kd, t) ==
   ELSE ClosePriv([Z EXCEPT !.out[k] = Append(@, Stamp(t, kd, 0)), !.live[k] = FALSE], a, k, t)
 
 (* ---- commands ------------------------------------------------------------------------------------ *)
-SubCmd(Z, a, k, t) ==
-  LET Z0 == [Z EXCEPT !.sapp[k] = a, !.nextId = IF k >= @ THEN k + 1 ELSE @] IN
+SubCmd(Z, a, k, t, m) ==
+  LET Z0 == [Z EXCEPT !.sapp[k] = a, !.mode[k] = m, !.nextId = IF k >= @ THEN k + 1 ELSE @] IN
   IF kind.mp # "none" THEN
      LET Z1 == [Z0 EXCEPT !.live[k] = TRUE, !.subAt[k] = t]
          Z2 == IF kind.sk = "behavior" THEN PrivNext(Z1, a, k, INITV, t) ELSE Z1
@@ -205,10 +218,10 @@ Adv(Z, lo, hi) == IF lo > hi THEN Z ELSE Adv(AppsLoop(Z, 1, lo), lo + 1, hi)
 \* "src": the events of an instant precede the commands issued at it; "cmd": they follow them
 AdvanceTo(Z, t) == LET Z1 == IF tie = "src" THEN Adv(Z, Z.now + 1, t) ELSE Adv(Z, Z.now, t - 1) IN [Z1 EXCEPT !.now = t]
 
-Cmd(c, a, k, t, e) == [c |-> c, a |-> a, k |-> k, t |-> t, e |-> e]
+Cmd(c, a, k, t, e) == [c |-> c, a |-> a, k |-> k, t |-> t, e |-> e, m |-> "all"]
 Step(Z, cmd) ==
   LET Z1 == AdvanceTo(Z, cmd.t) IN
-  CASE cmd.c = "sub"     -> SubCmd(Z1, cmd.a, cmd.k, cmd.t)
+  CASE cmd.c = "sub"     -> SubCmd(Z1, cmd.a, cmd.k, cmd.t, cmd.m)
     [] cmd.c = "unsub"   -> UnsubCmd(Z1, cmd.k, cmd.t)
     [] cmd.c = "connect" -> Connect(Z1, cmd.a, cmd.t)
     [] OTHER             -> IF cmd.e = Z1.epoch[cmd.a] THEN Disconnect(Z1, cmd.a, cmd.t) ELSE Z1   \* a stale handle is inert
@@ -219,7 +232,8 @@ InitState == IF kind.wr = "auto" /\ kind.n = 0 THEN ConnectAll(S0, 1) ELSE S0   
 
 Raw == kind.wr = "none" /\ kind.mp = "none"
 Menu(t) ==
-  {Cmd("sub", a, S.nextId, t, 0) : a \in IF S.nextId <= NSubs THEN Apps ELSE {}}
+  {[Cmd("sub", a, S.nextId, t, 0) EXCEPT !.m = m] : a \in IF S.nextId <= NSubs THEN Apps ELSE {},
+                                                     m \in IF kind.mp = "none" /\ kind.w = NoneP THEN Modes ELSE {"all"}}
   \cup {Cmd("unsub", S.sapp[k], k, t, 0) : k \in {j \in 1..(S.nextId - 1) : ReUnsub \/ j \notin S.asked}}
   \cup (IF Raw
         THEN {Cmd("connect", a, 0, t, IF S.connected[a] THEN S.epoch[a] ELSE S.epoch[a] + 1) : a \in Apps}
@@ -305,7 +319,9 @@ RefMapped(k) ==
   IN CASE kind.mp = "id"  -> raw
        [] kind.mp = "dup" -> [j \in 1..(2 * Len(ns)) |-> ns[(j + 1) \div 2]] \o tm
        [] OTHER           -> IF ns = <<>> THEN raw ELSE <<ns[1], Stamp(ns[1].t, "C", 0)>>
-RefOK == \A k \in Created : S.out[k] = IF Shared THEN RefShared(k) ELSE RefMapped(k)
+Once(L) == IF L = <<>> THEN <<>> ELSE IF L[1].k = "N" THEN <<L[1], Stamp(L[1].t, "C", 0)>> ELSE <<L[1]>>
+RefOK == \A k \in Created : S.out[k] = IF ~Shared THEN RefMapped(k)
+                                        ELSE IF S.mode[k] = "once" THEN Once(RefShared(k)) ELSE RefShared(k)
 
 (* ---- C44: applications are independent --------------------------------------------------------------- *)
 RECURSIVE Fold(_, _)
